@@ -23,4 +23,45 @@ pub trait DirectLDLSolver<T: FloatT>: DirectLDLSolverReqs<T> + HasLinearSolverIn
     fn offset_values(&mut self, index: &[usize], offset: T, signs: &[i8]);
     fn solve(&mut self, kkt: &CscMatrix<T>, x: &mut [T], b: &[T]);
     fn refactor(&mut self, kkt: &CscMatrix<T>) -> bool;
+    #[cfg(feature = "verif")]
+    fn verif_engine_snapshot(&self) -> crate::verif::EngineSnapshot<T>;
+}
+
+// read-only verification wrappers
+#[cfg(feature = "verif")]
+pub(crate) fn verif_dump_map(map: &LDLDataMap) -> crate::verif::KktMapDump {
+    let mut sparse_maps = vec![];
+    let mut sparse_dsigns = vec![];
+    for sm in map.sparse_maps.iter() {
+        match sm {
+            SparseExpansionMap::SOCExpansionMap(m) => {
+                sparse_maps.push(vec![m.u.clone(), m.v.clone(), m.D.to_vec()]);
+            }
+            SparseExpansionMap::GenPowExpansionMap(m) => {
+                sparse_maps.push(vec![m.p.clone(), m.q.clone(), m.r.clone(), m.D.to_vec()]);
+            }
+        }
+        sparse_dsigns.push(sm.Dsigns().to_vec());
+    }
+    crate::verif::KktMapDump {
+        P: map.P.clone(),
+        A: map.A.clone(),
+        Hsblocks: map.Hsblocks.clone(),
+        diagP: map.diagP.clone(),
+        diag_full: map.diag_full.clone(),
+        sparse_maps,
+        sparse_dsigns,
+    }
+}
+
+#[cfg(feature = "verif")]
+pub(crate) fn verif_assemble_kkt<T: FloatT>(
+    P: &CscMatrix<T>,
+    A: &CscMatrix<T>,
+    cones: &crate::solver::core::cones::CompositeCone<T>,
+    shape: MatrixTriangle,
+) -> (CscMatrix<T>, crate::verif::KktMapDump) {
+    let (K, map) = assemble_kkt_matrix(P, A, cones, shape);
+    let dump = verif_dump_map(&map);
+    (K, dump)
 }
